@@ -337,8 +337,8 @@ theorem mulcoeffsmontgomerylazythensublazyvec_lane_spec (x y z q qinv : Nat) (hq
 
 /-- `mulcoeffsmontgomerylazythenNegvec` (`MulCoeffsMontgomeryLazyThenNeg`):
 `out = 2q - MRedLazy x y`, `1 ≤ out ≤ 2q-1`, `out·2^64 + x·y ≡ 0`.
-**The doc comment says `[0, 2q-2]`; `2q-1` is attained** (`MRedLazy = 1`, see
-`Props/C01Words.lean`: `x = 1`, `y = 2^64 mod q`). -/
+**The doc comment says `[0, 2q-2]`; `2q-1` is attained** (`MRedLazy = 1` at `x = 1`,
+`y = 2^64 mod q`, see `mulcoeffsmontgomerylazythenNegvec_lane_max`). -/
 theorem mulcoeffsmontgomerylazythenNegvec_lane_spec (x y z q qinv : Nat) (hq : 2 * q ≤ W)
     (hm : MontConst q qinv) (hxy : x * y < q * W) :
     mulcoeffsmontgomerylazythenNegvec_lane x y z q qinv = 2 * q - MRedLazy x y q qinv
@@ -355,6 +355,17 @@ theorem mulcoeffsmontgomerylazythenNegvec_lane_spec (x y z q qinv : Nat) (hq : 2
   refine ⟨rfl, ?_, by omega, by omega⟩
   have := neg_mont_congr 0 (2 * q) _ q _ (Nat.le_of_lt h2) (Nat.mul_mod_left _ _) h1
   simpa using this
+
+/-- The bound `2q - 1` is attained for EVERY admissible modulus: `x = 1`, `y = 2^64 mod q` gives
+`MRedLazy = 1` (`MRedLazy_one`), hence `out = 2q - 1`, outside the documented `[0, 2q-2]`. -/
+theorem mulcoeffsmontgomerylazythenNegvec_lane_max (z q qinv : Nat) (hq : 2 * q ≤ W)
+    (hm : MontConst q qinv) :
+    mulcoeffsmontgomerylazythenNegvec_lane 1 (W % q) z q qinv = 2 * q - 1 := by
+  have hxy : 1 * (W % q) < q * W := by
+    rw [Nat.one_mul]
+    exact Nat.lt_of_lt_of_le (Nat.mod_lt _ hm.pos) (Nat.le_mul_of_pos_right q (by decide))
+  rw [(mulcoeffsmontgomerylazythenNegvec_lane_spec 1 (W % q) z q qinv hq hm hxy).1,
+    MRedLazy_one q qinv hq hm]
 
 /-! ### scalar kernels -/
 
